@@ -151,6 +151,9 @@ def struct_names(V, text, single):
             if last is None:
                 return None
             k = int(tok[1:])
+            if len(last) != 1:
+                return None               # a word that concatenates several units: the power applies to the last of them, which the
+                                          # reading of the word (a set of units) does not tell -- left to C05
             for u, p, e in last:
                 acc[u] = (acc[u][0] + p * sign * (k - 1), acc[u][1])
             last = None
